@@ -285,6 +285,25 @@ func structOf(form int, tags []string, ft reflect.Type) (v any, ok bool) {
 	return reflect.New(reflect.StructOf(fs)).Elem().Interface(), true
 }
 
+// embedAt wraps the struct made of the tagged fields into `depth` levels of embedded (anonymous) structs:
+// participle flattens embedded structs, so the grammar - and the expected class - is the same as for the flat one.
+func embedAt(form int, tags []string, ft reflect.Type, depth int) (v any, ok bool) {
+	defer func() {
+		if recover() != nil {
+			ok = false
+		}
+	}()
+	flat, ok := structOf(form, tags, ft)
+	if !ok {
+		return nil, false
+	}
+	t := reflect.TypeOf(flat)
+	for d := depth; d >= 1; d-- {
+		t = reflect.StructOf([]reflect.StructField{{Name: fmt.Sprintf("L%d", d), Type: t, Anonymous: true}})
+	}
+	return reflect.New(t).Elem().Interface(), true
+}
+
 // soupJob explores every token sequence that starts with the given first token.
 func soupJob(w *hx.Worker, first int, maxLen int, only string) {
 	// job index encodes one token (idx < len(alphabet)) or a two-token prefix
@@ -324,6 +343,21 @@ func soupJob(w *hx.Worker, first int, maxLen int, only string) {
 				w.Case(func() string { return key })
 				judge(w, key, cl, why, tryBuild(v))
 				w.DistinctS(why + fmt.Sprint(cl))
+				// the same fields inside 1, 3 and 5 levels of embedded structs: same token stream, same class
+				if len(toks) <= 3 && split > 0 {
+					for _, depth := range []int{1, 3, 5} {
+						ke := fmt.Sprintf("soup form=%d tags=%q embedded-depth=%d", form, tags, depth)
+						if only != "" && only != ke {
+							continue
+						}
+						if ve, ok := embedAt(form, tags, strT, depth); ok {
+							w.Case(func() string { return ke })
+							judge(w, ke, cl, why, tryBuild(ve))
+						} else {
+							w.Count("struct_type_not_constructible", 1)
+						}
+					}
+				}
 				// the same fields with a tagged field whose tag yields NO tokens (blank / comment only) in front,
 				// in between and behind: the token stream is unchanged, so is the expected class
 				if len(toks) <= 2 {
@@ -690,7 +724,7 @@ func plan(c *hx.Ctx) *hx.Plan {
 			}
 		},
 		Describe: func(i int) string { return fmt.Sprintf("%s#%d", js[i].kind, js[i].idx) },
-		Rule:     "(a) every sequence of tag tokens up to the length bound over the 23-token alphabet {@ @@ \"a\" 'b' Ident Nope ( ) [ ] { } | ? * + ! ~ (?= (?! : # unterminated-string}, as one field and split over two fields at every position, in whole-tag and parser:\"...\" form, as struct types made with reflect.StructOf; (b) every single-token insertion/deletion/replacement applied to 32 valid seed tags; (c) 25 field types x 12 tags x {plain, unexported neighbour, embedded neighbour}; (d) a static corpus of recursive / mutually recursive / anonymous / interface-typed declarations x option sets (unknown symbols, bad unions, duplicate custom parsers). A reference recogniser of the documented tag syntax classifies each case as must-build / must-fail (the property's named malformation classes) / must-return. evaluations = Build calls",
+		Rule:     "(a) every sequence of tag tokens up to the length bound over the 23-token alphabet {@ @@ \"a\" 'b' Ident Nope ( ) [ ] { } | ? * + ! ~ (?= (?! : # unterminated-string}, as one field and split over two fields at every position, in whole-tag and parser:\"...\" form, as struct types made with reflect.StructOf (two-field splits of up to 3 tokens also inside 1, 3 and 5 levels of embedded structs); (b) every single-token insertion/deletion/replacement applied to 32 valid seed tags; (c) 25 field types x 12 tags x {plain, unexported neighbour, embedded neighbour}; (d) a static corpus of recursive / mutually recursive / anonymous / interface-typed declarations x option sets (unknown symbols, bad unions, duplicate custom parsers). A reference recogniser of the documented tag syntax classifies each case as must-build / must-fail (the property's named malformation classes) / must-return. evaluations = Build calls",
 		Bounds:   map[string]any{"soup_max_tokens": maxLen, "alphabet": alphabet, "seeds": len(seeds)},
 		Assume:   []string{"Elide() of an unknown token type panics at parse time by design (configuration error, not enumerated)", "struct types that reflect.StructOf cannot construct are skipped (counted)"},
 	}
